@@ -63,6 +63,8 @@ type subject struct {
 	more func() string // further observables (accessor results)
 }
 
+var c20Order int
+
 func exerciseC20(r *Run, s subject, maxSeq int) int {
 	ms := readOnlyMethods(s.v)
 	if len(ms) == 0 {
@@ -70,11 +72,17 @@ func exerciseC20(r *Run, s subject, maxSeq int) int {
 	}
 	n := 0
 	t := s.v.Type()
-	// results before anything was encoded: encoding is a read-only operation too
+	// Two orders, alternating from subject to subject (one instance cannot be observed both ways):
+	// even: the encoding is taken first, then every method must leave it unchanged;
+	// odd: every method is called first, then the value is encoded, then the methods must still return what they
+	// returned before anything was encoded (encoding is a read-only operation too).
+	c20Order++
 	pre := map[int][]interface{}{}
-	for _, m := range ms {
-		if o, p := callRO(s.v, m); p == nil {
-			pre[m] = o
+	if c20Order%2 == 1 {
+		for _, m := range ms {
+			if o, p := callRO(s.v, m); p == nil {
+				pre[m] = o
+			}
 		}
 	}
 	enc0 := append([]byte{}, s.enc()...)
